@@ -776,7 +776,7 @@ func (w *c19World) genEnvOp(g *rng) {
 		} else if g.chance(40) {
 			// the admin turns the kill switch of one of the programs' apps on (usually) or off
 			w.opHalt([]uint64{w.fx.appH, w.fx.appV}[g.intn(2)], g.chance(60))
-		} else if g.chance(35) {
+		} else if g.chance(70) {
 			// the ESM status of one of the programs' apps: the locker / vault distributions return ErrESMAlreadyExecuted
 			w.opEsm([]uint64{w.fx.appH, w.fx.appV}[g.intn(2)], g.chance(60))
 		}
@@ -955,11 +955,21 @@ func c19HookErr(w *c19World, g *rng) {
 	}
 	w.opBegin(6)
 	w.opBegin(43201)
-	w.opHalt(which, true)
+	// the circuit breaker (kill switch) or the emergency shutdown (ESM status): two early returns of the same loop
+	byEsm := g.chance(45)
+	if byEsm {
+		w.opEsm(which, true)
+	} else {
+		w.opHalt(which, true)
+	}
 	for b := 0; b < 2+g.intn(2); b++ {
 		w.opBegin(g.pickI(43201, 86401))
 	}
-	w.opHalt(which, false)
+	if byEsm {
+		w.opEsm(which, false)
+	} else {
+		w.opHalt(which, false)
+	}
 	for b := 0; b < 2+g.intn(3); b++ {
 		w.opBegin(g.pickI(43201, 86401, 90000))
 	}
